@@ -11,6 +11,9 @@ import (
 
 var checks = map[string]func(rt.Tier) int{
 	"C01": mpt.C01,
+	"C02": mpt.C02,
+	"C03": mpt.C03,
+	"C14": mpt.C14,
 }
 
 func main() {
